@@ -1,6 +1,7 @@
 package checks
 
 import (
+	"os"
 	"encoding/json"
 	"fmt"
 	"path/filepath"
@@ -130,3 +131,5 @@ func (r *TVResult) Report(c *core.Ctx, monitor string) {
 		})
 	}
 }
+
+func os_skipMC() bool { return os.Getenv("VERIF_SKIP_MC") != "" }
